@@ -10,7 +10,7 @@ ID = "C06"
 RUN_MODULE = "Model.Lock Run.C06"
 EXPLAIN = "explain"
 RULE = ("2-4 real asyncio tasks entering sections guarded by cache.lock / @cache.locked on a coroutine function (constant key, or a key template over the arguments with positional and keyword call forms) / @cache.locked on an async generator / backend.lock on 1-2 keys (the second key lives on a second backend the facade routes to by prefix; in one case out of five the facade has no default backend at all), lock ttl 1 / 1.5 / 2 s (spelled as float / int / timedelta / string through the facade), section "
-        "durations 0-3 x ttl (some overstay; one body in five ends with an exception), wait=True (check_interval 0 or 0.125 s) and wait=False, plus unlock calls with a foreign token; "
+        "durations 0-3 x ttl (some overstay; one body in five ends with an exception), wait=True (check_interval 0 or 0.125 s) and wait=False, plus unlock calls with a foreign token; in every other case one more task asks is_locked about the contended key once or twice - plain form or is_locked(wait, step) with wait 0.5 / 1 / 1.25 s and step 0.125 / 0.25 / 0.375 s, on the backend or through the facade - and every poll it makes is recorded in the trace; "
         "every set_lock / unlock / ping of the Memory instance is gated, the schedule (which parked task runs next, when the clock advances to "
         "the next timer, which designated task gets cancelled) is a seeded list of choices - all schedules of length <= 7 for two tasks in the "
         "thorough tier; purge task on (0.25 s) or off. Observed: every lock command with its result and the start and end of every guarded body, in execution order, and per task how it ended (entered, LockedError, cancelled) with its number of attempts. non-trivial: at least "
@@ -33,6 +33,17 @@ def _keyname(case):
 
 class Boom(Exception):
     pass
+
+
+def _probe(case):
+    """every other generated case has one more task asking `is_locked` about the contended key while the others take and release
+    it: the plain form or the waiting form (wait / step in ticks, not always a multiple), on the backend or through the facade.
+    Derived from the schedule so that the random stream of the generator is unchanged."""
+    s = case["schedule"]
+    if "conf" not in case or len(s) < 20 or s[2] % 2:
+        return None
+    return {"start": (s[3] % 3) * 4, "wait": [None, 8, 16, 20][s[4] % 4], "step": [2, 4, 6][s[5] % 3], "facade": s[6] % 2 == 1,
+            "again": s[7] % 2 == 1}
 
 
 def gen_cases(rng, tier):
@@ -104,6 +115,30 @@ def run_impl(case):
             instrument(mem)
             instrument(mem2)
             outcomes = {}
+            probes = []
+            probe = _probe(case)
+            raw_exist = mem._key_exist
+
+            async def key_exist(key):
+                r = await raw_exist(key)
+                if asyncio.current_task().get_name() == "P" and key == keyname["L"]:
+                    events.append([key, "poll", -1, 0, bool(r), drv.tick()])
+                    probes[-1][1].append(bool(r))
+                return r
+            if probe:
+                mem._key_exist = key_exist
+
+            async def prober():
+                await asyncio.sleep(probe["start"] * TICK)
+                for _ in range(2 if probe["again"] else 1):
+                    w, st = probe["wait"], probe["step"]
+                    probes.append([0 if w is None else -(-w // st), [], None])
+                    target = cache if probe["facade"] else mem
+                    if w is None:
+                        probes[-1][2] = bool(await target.is_locked(keyname["L"]))
+                    else:
+                        probes[-1][2] = bool(await target.is_locked(keyname["L"], wait=w * TICK, step=st * TICK))
+                    await asyncio.sleep(3 * TICK)
 
             async def worker(i, spec):
                 if spec["start"]:
@@ -169,11 +204,15 @@ def run_impl(case):
                 ts.append(t)
             if case["foreign"]:
                 ts.append(asyncio.get_running_loop().create_task(intruder(), name="F"))
+            if probe:
+                ts.append(asyncio.get_running_loop().create_task(prober(), name="P"))
             await asyncio.gather(*ts, return_exceptions=True)
+            if probe:
+                del mem._key_exist
             for be, raw in raws.items():
                 be.set_lock, be.unlock, be.ping = raw["set_lock"], raw["unlock"], raw["ping"]
             await cache.close()
-            return {"outcomes": {str(k): v for k, v in outcomes.items()}}
+            return {"outcomes": {str(k): v for k, v in outcomes.items()}, "probes": probes}
         return main()
     cancellable = [f"T{case['cancel']}"] if case["cancel"] is not None and case["cancel"] < len(case["tasks"]) else []
     result, drv = sched.run(main_factory, case["schedule"], cancellable=cancellable, max_cancels=1 if cancellable else 0, no_cancel_labels=("unlock",))
@@ -195,6 +234,7 @@ def to_coq(case, obs):
             elif kind == "leave": tr.append((C("E", C("Leave", Nat(who))), r))
             elif kind == "in": tr.append((C("SecIn", Nat(who)), True))
             elif kind == "out": tr.append((C("SecOut", Nat(who)), True))
+            elif kind == "poll": tr.append((C("E", C("Probe")), r))
             else: tr.append((C("E", C("ForeignUnlock", Nat(1000))), r))
         if obs["deadlock"]:
             tr.append((C("E", C("ForeignUnlock", Nat(1000))), True))   # never allowed: flags the run
@@ -205,7 +245,9 @@ def to_coq(case, obs):
     for i, spec in enumerate(case["tasks"]):
         tries = [e for e in obs["events"] if e[1] == "try" and e[2] == i]
         pol.append((bool(spec["wait"]), Nat(sum(1 for e in tries if not e[4])), Nat(len(tries)), Nat(code.get(outcomes.get(str(i)), 3))))
-    return C("CLock", traces, pol)
+    # a call that never returned (the run was stopped) is reported as answering the opposite of its polls
+    probes = [(Nat(n), [bool(b) for b in polls], (not all(polls)) if r is None else bool(r)) for n, polls, r in (obs["result"] or {}).get("probes", [])]
+    return C("CLock", traces, pol, probes)
 
 
 def nontrivial(case, obs):
@@ -219,6 +261,10 @@ def classify(case, obs):
     for e in obs["events"]:
         if e[1] in ("in", "out"): continue
         d[e[1] + ("_ok" if e[4] else "_fail")] = d.get(e[1] + ("_ok" if e[4] else "_fail"), 0) + 1
+    for n, polls, r in (obs["result"] or {}).get("probes", []):
+        k = "is_locked_" + ("plain" if n == 0 else "wait") + ("_true" if r else "_false")
+        d[k] = d.get(k, 0) + 1
+        d["is_locked_polls"] = d.get("is_locked_polls", 0) + len(polls)
     for v in (obs["result"] or {}).get("outcomes", {}).values():
         d["outcome_" + v] = d.get("outcome_" + v, 0) + 1
     return d
